@@ -99,6 +99,16 @@ pub fn mem_accesses(map: &ExternSignatureMap, i: &Instruction) -> Option<Mem> {
     })
 }
 
+/// The accesses the instruction's semantics give (the reference table of C27), so that C23 judges
+/// the graph against what the instructions do rather than against the handler's own report; CALL
+/// (whose accesses depend on a signature) falls back to the handler.
+pub fn mem_accesses_by_semantics(map: &ExternSignatureMap, i: &Instruction) -> Option<Mem> {
+    match crate::model::mem::accesses(i, None) {
+        Some(a) => Some(Mem { reads: a.reads, writes: a.writes, captures: a.captures }),
+        None => mem_accesses(map, i),
+    }
+}
+
 pub fn texts(b: &[Instruction]) -> String {
     b.iter().map(|i| i.to_quil_or_debug()).collect::<Vec<_>>().join("; ")
 }
